@@ -242,6 +242,32 @@ def prepareRun (stopOf : Task → Option (Task → Bool)) (version : Nat) (qs : 
     else (some t, env qs)
   else (some t, env qs)
 
+/-! ## Hook runs outside the queues: the admission / conversion event closures -/
+
+/-- `controller.BindingExecutionInfo` as `AdmissionBindingsController.HandleEvent` and
+`ConversionBindingsController.HandleEvent` return it (the fields an event closure can read). -/
+structure ExecInfo where
+  ctxs : List Ctx := []
+  allowFailure : Bool := false
+  group : Nat := 0
+  /-- `info.QueueName`: the kubernetes / schedule event handlers pass it to `WithQueueName`, the
+  webhook closures do not read it -/
+  queueName : Nat := 0
+  deriving Repr
+
+/-- The task built by the admission event closure of `initValidatingWebhookManager` and by the closure
+in `conversionEventHandler`: `task.NewTask(HookRun).WithMetadata(HookMetadata{HookName, BindingType,
+BindingContext, AllowFailure, Binding, Group}).WithLogLabels(…)` — there is no `WithQueueName`, so
+`GetQueueName()` is the empty string (`emptyName`); the task is added to no queue. -/
+def webhookTask (emptyName id hook btype : Nat) (info : ExecInfo) : Task :=
+  { id := id, hook := hook, typ := 0, queue := emptyName, ctxs := info.ctxs,
+    allowFailure := info.allowFailure, btype := btype, group := info.group }
+
+/-- `res := op.taskHandler(task)` of those closures, up to the start of the hook. -/
+def webhookRun (stopOf : Task → Option (Task → Bool)) (version emptyName id hook btype : Nat)
+    (info : ExecInfo) (qs : QSet) (env : QSet → QSet) : Option Task × QSet :=
+  prepareRun stopOf version qs (webhookTask emptyName id hook btype info) env
+
 /-! ## Specification: plain list functions -/
 
 namespace Spec
